@@ -126,3 +126,30 @@ PROPS['C12'] = {
     'technique': 'static analysis: write-site classification by dominance over MIR + mono call-graph cut reachability',
     'assumptions': COMMON_ASSUMPTIONS + ['a successful FAT entry write transfers at least one byte through the adapter'],
 }
+
+PROPS['C05'] = {
+    'modules': ['c05'],
+    'level': 'other',
+    'quick_configs': ['default'],
+    'thorough_configs': ALL,
+    'controls': ['A5.1', 'A5.2'],
+    'floors': {'default': {'A5.1': 3, 'A5.2': 4, 'X2': 4}},
+    'rule_text': 'one obligation per FAT-mutator call site made on behalf of a FileSystem (must be followed by a counter '
+                 'update on every Ok path, using the returned delta), per assignment to a persisted counter inside '
+                 'FsInfoSector (must latch dirty), per encoder field, per recount/ dirty-mount / reclaim condition, and per '
+                 'FAT32 entry test (must be masked); non-trivial = decided by must-pass-through, dominance or dependence',
+    'explanation': 'Structural conditions of exact free-space accounting decided on the MIR: A5.1 accounting wrappers '
+                   '(generic over callers: a new wrapper must account too), A5.2 counter setters latch the write-back, '
+                   'A5.3 the FS-info encoder writes both counters, A5.4 the lazy recount scans total_clusters, stores and '
+                   'returns the result and runs exactly on the `count absent` arm, A5.5 a dirty mount discards the stored '
+                   'count, A5.8 remove frees the chain before deleting slots and truncate releases the rest of the chain, '
+                   'X2 every FAT32 entry test in get/find_free/count_free masks the reserved nibble. Does not decide the '
+                   'numerical equality count == free FAT entries over histories (arithmetic), nor that the hint is in '
+                   'range.',
+    'claim': 'Structural necessary conditions of the accounting on all paths (who must update the counter, with what, '
+             'and when it is persisted or distrusted); the numerical invariant itself is not decided.',
+    'level_note': 'counter arithmetic (n + delta, n - 1) is covered by the panic-site inventory only where stated in '
+                  'DESIGN.md; the returned deltas are trusted to be correct counts',
+    'technique': 'static analysis: must-pass-through / dominance / data-dependence rules on MIR',
+    'assumptions': COMMON_ASSUMPTIONS,
+}
